@@ -1,5 +1,8 @@
-from stages import cache
+from stages import cache, syncserve
 
 
 def run(ctx):
+    # memory bound per signer + no cross eviction (partial cache)
     cache.run(ctx, cache.MON_C12)
+    # storing a beacon / serving others never waits on a consumer that stopped reading (callback store)
+    syncserve.run(ctx, syncserve.MON_C12_CALLBACKS)
